@@ -10,13 +10,16 @@ From Coq Require Import List Arith Bool.
 Import ListNotations.
 From ZI Require Export Lib.Util Model.Ro Model.Attrs.
 
+(* a history step: an operation of the model, or "observe every accessor on interface x now" *)
+Inductive top := TOp (o : op) | TSnap (x : node).
+
 Record input := mkIn {
   i_n : nat;                                   (* interfaces are 1..n, 0 is Interface *)
   i_graph : graph;                             (* initial __bases__, with (0, []) *)
   i_attrs : list (node * list (name * desc));  (* direct attribute tables *)
   i_tags : list (node * list (tag * tval));    (* direct tagged values at creation (tag 0 = 'invariants') *)
   i_failing : list nat;                        (* invariants that raise Invalid *)
-  i_ops : list op;
+  i_ops : list top;
   i_names : list name;                         (* sorted universe of names asked *)
   i_tagsU : list tag;                          (* sorted universe of tags asked *)
   i_nodes : list node                          (* interfaces observed, in this order *)
@@ -35,8 +38,9 @@ Record nobs := mkNobs {
   o_v2_ran : list nat; o_v2_errs : list nat; o_v2_raised : bool   (* validateInvariants(ob, []) *)
 }.
 
-(* input, "no unexpected exception", answers of the OGet ops, snapshot per node of i_nodes *)
-Definition case_t := (input * bool * list (option nat) * list nobs)%type.
+(* input, "no unexpected exception", answers of the OGet ops, observations of the TSnap steps,
+   final snapshot per node of i_nodes *)
+Definition case_t := (input * bool * list (option nat) * list nobs * list nobs)%type.
 
 (* ---------------------------------------------------------------- helpers *)
 Definition alookup {V} (l : list (nat * list V)) (x : nat) : list V :=
@@ -115,17 +119,32 @@ Fixpoint snapshot (i : input) (w : world) (s : state) (nodes : list node) : list
   | x :: r => let '(o, s') := node_obs i w s x in o :: snapshot i w s' r
   end.
 
-Definition model_out (c : case_t) : list (option nat) * list nobs :=
-  let '(i, _, _, _) := c in
+(* the history of the model, collecting what every OGet and every TSnap answered *)
+Fixpoint run_hist (i : input) (w : world) (s : state) (ops : list top)
+  : list (option nat) * list nobs * state :=
+  match ops with
+  | [] => ([], [], s)
+  | TOp (OGet x n) :: r =>
+      let '(a, s') := get w s x n in
+      let '(gets, snaps, s'') := run_hist i w s' r in (a :: gets, snaps, s'')
+  | TOp o :: r => run_hist i w (step w s o) r
+  | TSnap x :: r =>
+      let '(o, s') := node_obs i w s x in
+      let '(gets, snaps, s'') := run_hist i w s' r in (gets, o :: snaps, s'')
+  end.
+
+Definition model_out (c : case_t) : list (option nat) * list nobs * list nobs :=
+  let '(i, _, _, _, _) := c in
   let w := world_of i in
-  let '(gets, s) := run_obs w (init w (i_graph i) (alookup (i_tags i))) (i_ops i) in
-  (gets, snapshot i w s (i_nodes i)).
+  let '(gets, snaps, s) := run_hist i w (init w (i_graph i) (alookup (i_tags i))) (i_ops i) in
+  (gets, snaps, snapshot i w s (i_nodes i)).
 
 Definition check_model (c : case_t) : bool :=
-  let '(i, ok, gets, snap) := c in
+  let '(i, ok, gets, snaps, snap) := c in
   let w := world_of i in
-  let '(mgets, s) := run_obs w (init w (i_graph i) (alookup (i_tags i))) (i_ops i) in
-  ok && list_eqb onat_eqb mgets gets && list_eqb nobs_eqb (snapshot i w s (i_nodes i)) snap
+  let '(mgets, msnaps, s) := run_hist i w (init w (i_graph i) (alookup (i_tags i))) (i_ops i) in
+  ok && list_eqb onat_eqb mgets gets && list_eqb nobs_eqb msnaps snaps
+  && list_eqb nobs_eqb (snapshot i w s (i_nodes i)) snap
   (* the recursion bound of the model exceeds the depth of the final graph *)
   && forallb (deep (fuel_of i) (st_graph s)) (i_nodes i).
 
@@ -150,22 +169,6 @@ Definition spec_tag (j : journal) (iro : list node) (t : tag) : option tval :=
   hd_error (flat_map (fun x => match j_direct j x t with Some v => [v] | None => [] end) iro).
 
 Definition is_some {A} (o : option A) : bool := match o with Some _ => true | None => false end.
-
-(* follow the history: only the bases and the tagged values; judge every get on the way *)
-Fixpoint spec_history (i : input) (g : graph) (j : journal) (ops : list op) (gets : list (option nat))
-  : bool * graph * journal :=
-  match ops with
-  | [] => (match gets with [] => true | _ => false end, g, j)
-  | OSetBases x bs :: r => spec_history i ((x, bs) :: g) j r gets
-  | OSetTag x t v :: r => spec_history i g ((x, t, v) :: j) r gets
-  | OGet x n :: r =>
-      match gets with
-      | [] => (false, g, j)
-      | a :: gets' =>
-          let '(ok, g', j') := spec_history i g j r gets' in
-          (onat_eqb a (spec_get i (fresh_sro (fuel_of i) 0 g x) n) && ok, g', j')
-      end
-  end.
 
 Fixpoint upto_first (p : nat -> bool) (l : list nat) : list nat * option nat :=
   match l with
@@ -196,6 +199,30 @@ Definition spec_node (i : input) (g : graph) (j : journal) (x : node) (o : nobs)
   && lnat_eqb (o_v2_ran o) invs && lnat_eqb (o_v2_errs o) errs
   && Bool.eqb (o_v2_raised o) (match errs with [] => false | _ => true end).
 
+(* follow the history: only the bases and the tagged values; judge every get and every
+   mid-history observation at its own time *)
+Fixpoint spec_history (i : input) (g : graph) (j : journal) (ops : list top)
+         (gets : list (option nat)) (snaps : list nobs) : bool * graph * journal :=
+  match ops with
+  | [] => (match gets, snaps with [], [] => true | _, _ => false end, g, j)
+  | TOp (OSetBases x bs) :: r => spec_history i ((x, bs) :: g) j r gets snaps
+  | TOp (OSetTag x t v) :: r => spec_history i g ((x, t, v) :: j) r gets snaps
+  | TOp (OGet x n) :: r =>
+      match gets with
+      | [] => (false, g, j)
+      | a :: gets' =>
+          let '(ok, g', j') := spec_history i g j r gets' snaps in
+          (onat_eqb a (spec_get i (fresh_sro (fuel_of i) 0 g x) n) && ok, g', j')
+      end
+  | TSnap x :: r =>
+      match snaps with
+      | [] => (false, g, j)
+      | o :: snaps' =>
+          let '(ok, g', j') := spec_history i g j r gets snaps' in
+          (spec_node i g j x o && ok, g', j')
+      end
+  end.
+
 Fixpoint forall2b {A B} (f : A -> B -> bool) (l1 : list A) (l2 : list B) : bool :=
   match l1, l2 with
   | [], [] => true
@@ -204,8 +231,8 @@ Fixpoint forall2b {A B} (f : A -> B -> bool) (l1 : list A) (l2 : list B) : bool 
   end.
 
 Definition check_spec (c : case_t) : bool :=
-  let '(i, ok, gets, snap) := c in
-  let '(okh, g, j) := spec_history i (i_graph i) (j_init (i_tags i)) (i_ops i) gets in
+  let '(i, ok, gets, snaps, snap) := c in
+  let '(okh, g, j) := spec_history i (i_graph i) (j_init (i_tags i)) (i_ops i) gets snaps in
   ok && okh && forall2b (spec_node i g j) (i_nodes i) snap
   (* the universes asked are complete, so "exactly the names / tags" is meaningful *)
   && forallb (fun e => forallb (fun nd => mem_nat (fst nd) (i_names i)) (snd e)) (i_attrs i)
